@@ -25,6 +25,15 @@ fn network_tables(o: &mut Observed) {
     let kinds = [AddressType::Standard, AddressType::Integrated(Default::default()), AddressType::SubAddress];
     let r = guarded(move || { let mut rows = vec![]; for (n, nn) in NETS { for k in &kinds { rows.push(format!("(.{}, .{}, {})", nn, kind_name(k), n.as_u8(k))); } } rows });
     match r { Ok(rows) => o.defs.push(("asU8".into(), format!("[{}]", rows.join(", ")))), Err(m) => o.fails.push(format!("EXTRACT-FAIL network.as_u8: panicked while being evaluated on the 9 pairs: {}", m)) }
+    // the payment id carried by `Integrated` is part of the argument: the table has no column for it, so the tag must not depend on it
+    let r = guarded(|| { let mut bad = vec![];
+        for (n, nn) in NETS { let t0 = n.as_u8(&AddressType::Integrated(Default::default()));
+            for p in [[0xffu8; 8], [1, 2, 3, 4, 5, 6, 7, 8], [0, 0, 0, 0, 0, 0, 0, 1], [0x80, 0, 0, 0, 0, 0, 0, 0], [0x55; 8], [0xaa; 8]] {
+                let t = n.as_u8(&AddressType::Integrated(monero::util::address::PaymentId(p)));
+                if t != t0 { bad.push(format!("{} Integrated: tag {} for the zero payment id, {} for {:?}", nn, t0, t, p)); } } }
+        bad });
+    match r { Ok(bad) => for b in bad { o.fails.push(format!("EXTRACT-FAIL network.as_u8: the tag depends on the payment id, which the table cannot express: {}", b)); },
+              Err(m) => o.fails.push(format!("EXTRACT-FAIL network.as_u8: panicked while being evaluated with a non-zero payment id: {}", m)) }
     // Network::from_u8 on all 256 bytes
     let r = guarded(|| { let mut per: Vec<Vec<String>> = vec![vec![]; 3];
         for b in 0..=255u8 { if let Ok(n) = Network::from_u8(b) { let i = NETS.iter().position(|x| x.0 == n).unwrap(); per[i].push(format!("({}, .{})", b, NETS[i].1)); } }
@@ -51,6 +60,17 @@ fn address_tables(o: &mut Observed) {
                     Err(_) => if seen_ok { return Err(format!("{} byte {}: accepted at a shorter length but rejected at length {}", nn, b, len)); },
                 }
             }
+            // second reading with other contents (zeros, 0xff, descending bytes, the tag byte repeated): the row observed above says the
+            // result depends on byte 0, the length and the payment-id range only — any other dependence does not fit the table
+            for len in 1..=160usize { for pat in 0..4u8 {
+                let mut blob: Vec<u8> = (0..len).map(|i| match pat { 0 => 0u8, 1 => 0xff, 2 => 255 - i as u8, _ => b }).collect(); blob[0] = b;
+                let want_ok = kind.is_some() && len >= minlen;
+                match AddressType::from_slice(&blob, n) {
+                    Ok(t) => { if !want_ok || Some(kind_name(&t)) != kind { return Err(format!("{} byte {}: result at length {} depends on the blob content (pattern {})", nn, b, len, pat)); }
+                        if let AddressType::Integrated(p) = &t { if range.1 > len || p.to_fixed_bytes()[..] != blob[range.0..range.1] { return Err(format!("{} byte {}: payment id at length {} is not bytes {}..{} for content pattern {}", nn, b, len, range.0, range.1, pat)); } } }
+                    Err(_) => if want_ok { return Err(format!("{} byte {}: accepted at length {} for one content, rejected for another (pattern {})", nn, b, len, pat)); },
+                }
+            } }
             if let Some(k) = kind { rows.push(format!("(.{}, {}, .{}, {}, {}, {})", nn, b, k, minlen, range.0, range.1)); }
         } }
         let empty_err = NETS.iter().all(|(n, _)| AddressType::from_slice(&[], *n).is_err());
